@@ -49,6 +49,14 @@ def gen_case(rng, idx, tier):
     T = 70 if tier == "quick" else 160
     dims = []
     names = ["d2", "d3", "d1"][:nd]
+    # one-dimensional cases on a distance at 300 K: the total force then carries the Jacobian term k_B T * 2/r, reported
+    # or hidden (hideJacobian: compensated by a force on the atoms and left out of the samples)
+    opts["jac"] = None
+    if nd == 1 and idx % 4 == 3:
+        opts["jac"] = rng.choice(["show", "hide"])
+        opts["periodic"] = periodic0 = False
+        opts["other"] = None
+        names = ["d1"]
     for n in names:
         if n == "d1":
             dims.append(Dim("d1", 2.0, 6.0, 1.0, False))
@@ -86,6 +94,8 @@ def config(case):
         cfg += "  maxForce %s\n" % " ".join(fnum(case["maxforce"]) for _ in case["dims"])
     if not case["apply"]:
         cfg += "  applyBias off\n"
+    if case.get("jac") == "hide":
+        cfg += "  hideJacobian on\n"
     cfg += "}\n"
     if case["other"]:
         cfg += "harmonic {\n  colvars d2\n  centers 1.0\n  forceConstant 0.5\n}\n"
@@ -93,7 +103,7 @@ def config(case):
 
 
 def scenario(case):
-    s = ctl.header(case["tfm"], extra="dt 1.0\ntemp 0.0")
+    s = ctl.header(case["tfm"], extra="dt 1.0\ntemp %s" % ("300.0" if case.get("jac") else "0.0"))
     s += "emit atoms off\nmodule\nconfig <<EOC\n" + config(case) + "EOC\ninit\n"
     for t in range(case["T"] + 1):
         kw = {}
@@ -153,8 +163,14 @@ def check_case(c, case, ev, sp):
 
     cnt = [0] * ncells
     sm = [[0.0] * nd for _ in range(ncells)]   # sum of samples per bin
-    key = "nd%d:%s:%s%s%s" % (nd, case["tfm"], "periodic" if case["periodic"] else "open",
-                              ":other=" + case["other"] if case["other"] else "", "" if case["apply"] else ":noapply")
+    key = "nd%d:%s:%s%s%s%s" % (nd, case["tfm"], "periodic" if case["periodic"] else "open",
+                                ":other=" + case["other"] if case["other"] else "", "" if case["apply"] else ":noapply",
+                                ":jacobian_" + case["jac"] if case.get("jac") else "")
+    KT = 0.001987191 * 300.0
+
+    def jac_term(t_):
+        # Jacobian term of a distance: k_B T d ln|J| / d xi = 2 k_B T / r, part of the total force unless hidden
+        return (2.0 * KT / case["hist"][0][t_]) if case.get("jac") == "show" else 0.0
     steps = []
     i = 0
     evs = [e for e in ev if e["ev"] in ("step", "savestr", "mark")]
@@ -207,7 +223,7 @@ def check_case(c, case, ev, sp):
                     a = addr(ix)
                     cnt[a] += 1
                     for k in range(nd):
-                        sm[a][k] += s_now[k]
+                        sm[a][k] += s_now[k] + jac_term(t)
                     n_samples += 1
                     bins_hit.add(a)
             else:
@@ -218,7 +234,7 @@ def check_case(c, case, ev, sp):
                         x = prev[1][k]
                         if case["other"] == "harmonic" and dims[k].name == "d2":
                             x = x + prev[3]
-                        sm[a][k] += x
+                        sm[a][k] += x + jac_term(prev[5])
                     n_samples += 1
                     bins_hit.add(a)
         # predicted force
@@ -253,7 +269,7 @@ def check_case(c, case, ev, sp):
                 diff -= P * math.floor(diff / P + 0.5)   # shortest image, as documented for periodic variables
             other_f = -(0.5 / (w * w)) * diff
         fa_obs = fl(e["cv"][dims[0].name]["fa"][0])
-        prev = (ix if ok else None, s_now, pf, other_f, fa_obs)
+        prev = (ix if ok else None, s_now, pf, other_f, fa_obs, t)
         # stored data
         if sv is not None:
             oc, og = parse_abf_state(sv["state"], ncells, nd)
